@@ -638,7 +638,12 @@ func runSchedDiff(outDir string, seed int64, tier string) {
 	}
 	// the observed node has lost its state and is being re-initialised: the operator submits the airgapped machine's answer to
 	// the reinit operation (a read-modify-write of the stored round) while the poller opens another round
+	// respelled: the answer's public polynomial in another spelling of the same JSON (a blank at its end): in a current-format
+	// log the replay has already stored the polynomial, byte for byte what the machine answers - an update of the round that is
+	// lost could not be told from one that was made; with the other spelling it can
+	respelled := false
 	mkFinishReinit := func(sameRound, oldFormat bool) schedScenario {
+		respelled := respelled
 		name := "ProcessOperation(result of the reinit operation) || poll(opening proposal of another round)"
 		if sameRound {
 			name = "ProcessOperation(result of the reinit operation) || poll(signing proposal and partial signatures for the re-initialised round)"
@@ -647,6 +652,9 @@ func runSchedDiff(outDir string, seed int64, tier string) {
 			// a 0.1.4 log: the master-key announcements carry no public polynomial, so the round gets it ONLY from the
 			// answer to the reinit operation (in a current log the replay has already put the same value there)
 			name += " [0.1.4-format log]"
+		}
+		if respelled {
+			name += " [the answer's polynomial in another spelling]"
 		}
 		return schedScenario{name: name,
 			prepare: func(c *cluster, obs *vnode, round string) (func(n *vnode) error, int, error) {
@@ -734,10 +742,16 @@ func runSchedDiff(outDir string, seed int64, tier string) {
 				} else if _, err := c.startDKG(2); err != nil {
 					return nil, 0, err
 				}
+				if respelled {
+					res.ExtraData = append(append([]byte{}, res.ExtraData...), ' ')
+				}
 				api := func(n *vnode) error { return n.svc.ProcessOperation(opToDTO(&res)) }
 				return api, pollMax, nil
 			}}
 	}
+	respelled = true
+	finishRespelled := mkFinishReinit(true, false)
+	respelled = false
 	// two rounds are being re-initialised: the operator finishes round A (the machine's answer to its reinit operation)
 	// while the poller handles the reinit message of round B - both rewrite the one stored value that holds all rounds
 	finishVsOtherReinit := schedScenario{name: "ProcessOperation(result of the reinit operation of round A) || poll(reinit message of round B)",
@@ -877,7 +891,7 @@ func runSchedDiff(outDir string, seed int64, tier string) {
 				return nil, 0, fmt.Errorf("the observed node never got a %s operation", step)
 			}}
 	}
-	scs := []schedScenario{lateAnswer, answerNew, approve, reset, mkSaveOffset(true), mkSaveOffset(false), mkFinishReinit(false, false), mkFinishReinit(true, false), mkFinishReinit(true, true), finishVsOtherReinit,
+	scs := []schedScenario{lateAnswer, answerNew, approve, reset, mkSaveOffset(true), mkSaveOffset(false), mkFinishReinit(false, false), mkFinishReinit(true, false), mkFinishReinit(true, true), finishRespelled, finishVsOtherReinit,
 		mkMidDKG("state_dkg_commits_await_confirmations"), mkMidDKG("state_dkg_deals_await_confirmations"),
 		mkMidDKG("state_dkg_responses_await_confirmations"), mkMidDKG("state_dkg_master_key_await_confirmations")}
 	for _, sc := range scs {
